@@ -150,11 +150,15 @@ theorem linImport_facts {im : Import} {t1 : List Token} (h : LinImport Y im t1) 
   | plain kw nm hk _ _ => exact ⟨kw, [nm], rfl, hk, by simp⟩
   | items kw nm dot ids ti hk _ _ _ _ => exact ⟨kw, nm :: dot :: ti, rfl, hk, by simp⟩
 
-/-- `ParseImportStmt` after 导入 -/
+/-- the rendered 导入 node holds the line of its 导入 token -/
+theorem linImport_line {im : Import} {kw : Token} {r : List Token} (h : LinImport Y im (kw :: r)) : im.line = Y.sl kw := by
+  cases h <;> rfl
+
+/-- `ParseImportStmt` after 导入: the node, its line still 0 (`ParseProgram` sets it afterwards) -/
 theorem import_rt {im : Import} {kw : Token} {r : List Token} (h : LinImport Y im (kw :: r)) (rest : List Token)
     (ho : Y.InOrder (kw :: (r ++ rest))) (hnext : (Y.peek rest).type ∈ afterImport) (m : Nat) (hm : r.length + 1 ≤ m + 1) :
     parse v (layoutOps Y) (m + 2) .importStmt (S Y (some kw) (r ++ rest) (Y.brk kw (Y.peek (r ++ rest)))) =
-      .ok im (S Y (kw :: r).getLast? rest (Y.jf (kw :: r).getLast? (Y.peek rest))) := by
+      .ok { im with line := 0 } (S Y (kw :: r).getLast? rest (Y.jf (kw :: r).getLast? (Y.peek rest))) := by
   have hx := afterImport_spec _ hnext
   cases h with
   | plain _ nm hk hnm hg =>
@@ -204,11 +208,63 @@ theorem import_rt {im : Import} {kw : Token} {r : List Token} (h : LinImport Y i
     rw [el]
     rfl
 
+/-- the 导入 tokens of a token list -/
+def importKws (ts : List Token) : List Token := ts.filter (fun t => t.type = cTypeImportW)
+
+theorem linIds_no_importKw {ids : List Ident} {ts : List Token} (h : LinIds Y ids ts) : importKws ts = [] := by
+  induction h with
+  | one t ht => simp [importKws, ht]; decide
+  | cons t p ids ts ht hp _ ih =>
+    have h1 : decide (t.type = cTypeImportW) = false := by rw [ht]; decide
+    have h2 : decide (p.type = cTypeImportW) = false := by rw [hp]; decide
+    unfold importKws at ih ⊢
+    rw [List.filter_cons, h1, List.filter_cons, h2]
+    exact ih
+
+/-- a rendered 导入 statement holds exactly one 导入 token, its first, and the node carries that token's line -/
+theorem linImport_kw {im : Import} {t1 : List Token} (h : LinImport Y im t1) : (importKws t1).map Y.sl = [im.line] := by
+  have hmem : ∀ (t : Token) (l : List Nat), t.type ∈ l → cTypeImportW ∉ l → decide (t.type = cTypeImportW) = false := by
+    intro t l h1 h2
+    simp only [decide_eq_false_iff_not]
+    intro h; rw [h] at h1; exact h2 h1
+  cases h with
+  | plain kw nm hk hnm _ =>
+    have h2 := hmem nm _ hnm (by decide)
+    simp [importKws, List.filter_cons, hk, h2]
+  | items kw nm dot ids ti hk hnm hdot hi _ =>
+    have h2 := hmem nm _ hnm (by decide)
+    have h3 := hmem dot _ hdot (by decide)
+    have h4 := linIds_no_importKw hi
+    unfold importKws at h4 ⊢
+    rw [List.filter_cons, List.filter_cons, List.filter_cons, h2, h3, h4]
+    simp [hk]
+
+theorem sepRun_no_importKw {a : Option Token} {seps : List Token} (h : SepRun Y a seps) : importKws seps = [] := by
+  induction h with
+  | nil a => rfl
+  | cons a t r ht _ _ ih =>
+    have h1 : decide (t.type = cTypeImportW) = false := by rw [ht]; decide
+    unfold importKws at ih ⊢
+    rw [List.filter_cons, h1]
+    exact ih
+
+/-- the lines of the import nodes are the lines of the 导入 tokens, in order -/
+theorem linImports_lines {d : Nat} {ims : List Import} {ti : List Token} (h : LinImports Y d ims ti) :
+    ims.map (·.line) = (importKws ti).map Y.sl := by
+  induction h with
+  | nil => rfl
+  | cons im t1 seps ims t2 h1 _ hs _ ih =>
+    have := linImport_kw h1
+    have hs' := sepRun_no_importKw hs
+    unfold importKws at this ih hs' ⊢
+    rw [List.filter_append, List.filter_append, hs', List.nil_append, List.map_append, this, List.map_cons, ih]
+    rfl
+
 theorem linImports_heads {d : Nat} {ims : List Import} {ti : List Token} (h : LinImports Y d ims ti) :
     Heads Y d [cTypeImportW] ti := by
   cases h with
   | nil => exact heads_nil d _
-  | cons im t1 ims t2 h1 hind h2 =>
+  | cons im t1 seps ims t2 h1 hind _ h2 =>
     intro _
     obtain ⟨kw, r, rfl, hk, _⟩ := linImport_facts h1
     exact ⟨by show kw.type ∈ _; simp [hk], hind⟩
@@ -223,53 +279,134 @@ theorem exitI_cons (fl : Bool) {t1 : List Token} (h1 : t1 ≠ []) (t2 rest : Lis
   · subst h2; simp [h1]
   · simp [h1, h2, getLast?_append_ne t1 h2]
 
+/-- `for { tryConsume(；) }` after a 导入 statement: it swallows the run of `；` and stops at what follows — anything that is
+not a `；`, or a `；` after a statement line break -/
+theorem swallow_seps {a : Option Token} {seps : List Token} (h : SepRun Y a seps) :
+    ∀ (rest : List Token) (k m : Nat), Y.InOrder (seps ++ rest) → (Y.peek rest).type ≠ cTypeCommaSep →
+      ((Y.peek rest).type = cTypeStmtSep → Y.jf (lastTok a seps) (Y.peek rest) = true) → seps.length + 1 ≤ k →
+      swallowAll (layoutOps Y) (m + 1) [cTypeStmtSep] k (S Y a (seps ++ rest) (Y.jf a (Y.peek (seps ++ rest)))) =
+        .ok () (S Y (lastTok a seps) rest (Y.jf (lastTok a seps) (Y.peek rest))) := by
+  induction h with
+  | nil a =>
+    intro rest k m _ hnc hstop hk
+    obtain ⟨k', rfl⟩ : ∃ k', k = k' + 1 := ⟨k - 1, by simp only [List.length_nil] at hk; omega⟩
+    rw [lastTok_nil] at hstop ⊢
+    rw [List.nil_append]
+    unfold swallowAll
+    have hmiss : Y.jf a (Y.peek rest) = true ∨ (Y.peek rest).type ∉ [cTypeStmtSep] := by
+      by_cases hty : (Y.peek rest).type = cTypeStmtSep
+      · exact Or.inl (hstop hty)
+      · exact Or.inr (by simpa using hty)
+    rw [bind_ok (tryConsume_miss (m + 1) _ a rest _ hmiss hnc)]
+    rfl
+  | cons a t r ht hj _ ih =>
+    intro rest k m ho hnc hstop hk
+    obtain ⟨k', rfl⟩ : ∃ k', k = k' + 1 := ⟨k - 1, by simp only [List.length_cons] at hk; omega⟩
+    have e0 : (t :: r) ++ rest = t :: (r ++ rest) := rfl
+    rw [e0] at ho ⊢
+    have hpk : Y.peek (t :: (r ++ rest)) = t := rfl
+    rw [hpk, hj]
+    unfold swallowAll
+    rw [bind_ok (tryConsume_hit m _ a t (r ++ rest) (by simp [ht]) (by rw [ht]; decide) ho)]
+    dsimp only
+    rw [lastTok_cons] at hstop ⊢
+    exact ih rest k' m (inOrder_tail ho) hnc hstop (by simp only [List.length_cons] at hk; omega)
+
+theorem sepRun_all {a : Option Token} {seps : List Token} (h : SepRun Y a seps) : ∀ t ∈ seps, t.type = cTypeStmtSep := by
+  induction h with
+  | nil a => intro t ht; cases ht
+  | cons a t r ht _ _ ih =>
+    intro u hu
+    rcases List.mem_cons.mp hu with rfl | hu
+    · exact ht
+    · exact ih u hu
+
 /-- `ParseProgram`'s loop over the 导入 statements: it comes to the same loop after them, with the imports collected -/
 theorem imports_roundtrip {d : Nat} {ims : List Import} {ti : List Token} (h : LinImports Y d ims ti) :
     ∀ (p1 : Option Token) (rest : List Token) (fl : Bool) (acc : List Import) (r : Res (List Token) Program) (n : Nat),
       Y.InOrder (ti ++ rest) → (Y.peek rest).type ∈ afterImport →
+      ((Y.peek rest).type = cTypeStmtSep → Y.jf (lastTok p1 ti) (Y.peek rest) = true) →
       Stable v Y (.programLoop d false (acc ++ ims) none) (S Y (lastTok p1 ti) rest (exitI Y fl ti rest)) r n →
       Stable v Y (.programLoop d false acc none) (S Y p1 (ti ++ rest) fl) r (n + 16 * ti.length) := by
   induction h with
   | nil =>
-    intro p1 rest fl acc r n ho hnext hk
+    intro p1 rest fl acc r n ho hnext _ hk
     rw [List.append_nil] at hk
     exact Stable.mono hk (Nat.le_add_right _ _)
-  | cons im t1 ims t2 h1 hind h2 ih =>
-    intro p1 rest fl acc r n ho hnext hk n' hn
+  | cons im t1 seps ims t2 h1 hind hsr h2 ih =>
+    intro p1 rest fl acc r n ho hnext hsep hk n' hn
     obtain ⟨kw, t1r, rfl, hkw, hne⟩ := linImport_facts h1
     have hlen1 := List.length_pos_iff.mpr hne
     obtain ⟨m, rfl⟩ : ∃ m, n' = m + 3 := ⟨n' - 3, by simp only [List.length_append, List.length_cons] at hn; omega⟩
-    have e0 : ((kw :: t1r) ++ t2) ++ rest = kw :: (t1r ++ (t2 ++ rest)) := by simp
+    have e0 : ((kw :: t1r) ++ (seps ++ t2)) ++ rest = kw :: (t1r ++ (seps ++ (t2 ++ rest))) := by simp
     rw [e0] at ho ⊢
     have hkc : kw.type ≠ cTypeCommaSep := by rw [hkw]; decide
     show pProgramLoop (layoutOps Y) (m + 2) _ d false acc none _ = _
     unfold pProgramLoop
     rw [bind_ok (getS_S _)]
-    have hbc : blockCond (layoutOps Y) d (S Y p1 (kw :: (t1r ++ (t2 ++ rest))) fl) = true :=
+    have hbc : blockCond (layoutOps Y) d (S Y p1 (kw :: (t1r ++ (seps ++ (t2 ++ rest)))) fl) = true :=
       blockCond_true d p1 _ fl (by show kw.type ≠ _; rw [hkw]; decide) hind
     simp only [hbc, if_true]
     rw [bind_ok (unsetFlag_S p1 _ fl)]
     simp only [Bool.false_eq_true, if_false]
     rw [bind_ok (tryConsume_hit (m + 1) _ p1 kw _ (by simp [hkw]) hkc ho)]
     dsimp only
-    have hnext' : (Y.peek (t2 ++ rest)).type ∈ afterImport := by
+    -- what follows the 导入 statement and its `；`: the next 导入, or what follows the import section
+    have hnext2 : (Y.peek (t2 ++ rest)).type ∈ afterImport ∧ (Y.peek (t2 ++ rest)).type ≠ cTypeCommaSep := by
       by_cases h2e : t2 = []
-      · subst h2e; exact hnext
+      · subst h2e; exact ⟨hnext, (afterImport_spec _ hnext).1⟩
       · have := (linImports_heads h2 h2e).1
         rw [peek_append h2e]
         simp only [List.mem_cons, List.not_mem_nil, or_false] at this
+        rw [this]; exact ⟨by decide, by decide⟩
+    have hnext' : (Y.peek (seps ++ (t2 ++ rest))).type ∈ afterImport := by
+      cases seps with
+      | nil => exact hnext2.1
+      | cons t r =>
+        have := sepRun_all hsr t (List.mem_cons_self ..)
+        show t.type ∈ afterImport
         rw [this]; decide
-    have himp := import_rt (v := v) h1 (t2 ++ rest) ho hnext' m
+    have himp := import_rt (v := v) h1 (seps ++ (t2 ++ rest)) ho hnext' m
       (by simp only [List.length_append, List.length_cons] at hn; omega)
     show (parse v (layoutOps Y) (m + 2) .importStmt >>= _) _ = _
-    rw [bind_ok himp]
+    rw [bind_ok himp, bind_ok (lineOf_S kw _)]
+    have hline : ({ ({ im with line := 0 } : Import) with line := Y.sl kw } : Import) = im := by
+      rw [← linImport_line h1]
+    rw [hline]
+    -- the `；` after it
+    have hT : lastTok (kw :: t1r).getLast? seps = ((kw :: t1r) ++ seps).getLast? := by
+      rw [← lastTok_ne p1 (by simp : (kw :: t1r) ++ seps ≠ []), lastTok_append, lastTok_ne p1 (by simp : kw :: t1r ≠ [])]
+    have hstop : (Y.peek (t2 ++ rest)).type = cTypeStmtSep → Y.jf (lastTok (kw :: t1r).getLast? seps) (Y.peek (t2 ++ rest)) = true := by
+      intro hty
+      by_cases h2e : t2 = []
+      · subst h2e
+        have := hsep hty
+        rw [List.append_nil, lastTok_append, lastTok_ne p1 (by simp : kw :: t1r ≠ [])] at this
+        exact this
+      · have := (linImports_heads h2 h2e).1
+        rw [peek_append h2e] at hty
+        simp only [List.mem_cons, List.not_mem_nil, or_false] at this
+        rw [this] at hty
+        exact absurd hty (by decide)
+    have hsw := swallow_seps hsr (t2 ++ rest) (m + 2) (m + 1) (inOrder_drop t1r (inOrder_tail ho)) hnext2.2 hstop
+      (by simp only [List.length_append, List.length_cons] at hn; omega)
+    rw [bind_ok hsw, hT]
     have hk' : Stable v Y (.programLoop d false ((acc ++ [im]) ++ ims) none)
-        (S Y (lastTok (kw :: t1r).getLast? t2) rest
-          (exitI Y (Y.jf (kw :: t1r).getLast? (Y.peek (t2 ++ rest))) t2 rest)) r n := by
-      rw [exitI_cons fl (by simp : kw :: t1r ≠ []) t2 rest, List.append_assoc]
-      rw [lastTok_append, lastTok_ne p1 (by simp : kw :: t1r ≠ [])] at hk
+        (S Y (lastTok ((kw :: t1r) ++ seps).getLast? t2) rest
+          (exitI Y (Y.jf ((kw :: t1r) ++ seps).getLast? (Y.peek (t2 ++ rest))) t2 rest)) r n := by
+      rw [exitI_cons fl (by simp : (kw :: t1r) ++ seps ≠ []) t2 rest, List.append_assoc, List.append_assoc]
+      rw [← List.append_assoc (kw :: t1r) seps t2, lastTok_append,
+        lastTok_ne p1 (by simp : (kw :: t1r) ++ seps ≠ [])] at hk
+      rw [List.append_assoc (kw :: t1r) seps t2] at hk
       exact hk
-    exact ih (kw :: t1r).getLast? rest _ (acc ++ [im]) r n (inOrder_drop t1r (inOrder_tail ho)) hnext hk' (m + 2)
+    have hsep' : (Y.peek rest).type = cTypeStmtSep → Y.jf (lastTok ((kw :: t1r) ++ seps).getLast? t2) (Y.peek rest) = true := by
+      intro hty
+      have := hsep hty
+      rw [← List.append_assoc (kw :: t1r) seps t2, lastTok_append,
+        lastTok_ne p1 (by simp : (kw :: t1r) ++ seps ≠ [])] at this
+      exact this
+    exact ih ((kw :: t1r) ++ seps).getLast? rest _ (acc ++ [im]) r n
+      (inOrder_drop seps (inOrder_drop t1r (inOrder_tail ho))) hnext hsep' hk' (m + 2)
       (by simp only [List.length_append, List.length_cons] at hn; omega)
 
 end ZnVerif.Proofs.StmtRT
